@@ -7,6 +7,7 @@ import pickle
 import numpy as np
 
 import cache_corr
+import common
 import translate_systems
 import zoo
 
@@ -133,6 +134,44 @@ def trajectory_search(ctx):
                "(known finding: dynamic transitions re-evaluate the start position once per direction)", bad == 0, f"{bad} failures")
 
 
+def bidirectional_corr(ctx):
+    """Model/GradCount.grow_both evaluated by Coq vs the real leapfrog integrator growing both directions from one state object."""
+    import mici
+    hi = 4 if not ctx.thorough else 8
+    grid = [(w, nf, nb) for w in (False, True) for nf in range(hi) for nb in range(hi)]
+    mk = lambda w: "{| pv := 0; mv := 0; cg := %s; cvv := None |}" % ("Some 0%nat" if w else "None")
+    body = ("Require Import Mici.Model.GradCount.\nOpen Scope nat_scope.\nEval vm_compute in "
+            + common.coq_list([f"Z.of_nat (grow_both {nf} {nb} {mk(w)} 0)" for w, nf, nb in grid]) + ".\n")
+    model = common.parse_coq_value(ctx.coq_eval(body, name="grow_cases")[0])
+    bad = 0
+    for conv in ("bare", "tuple"):
+        systems, c = zoo.make_systems(conv, which=["euclid_identity", "euclid_dense", "gauss_dense"])
+        for name, sysm in systems.items():
+            rng = np.random.default_rng(int(ctx.rng.integers(0, 2 ** 31)))
+            integ = mici.integrators.LeapfrogIntegrator(sysm, 0.1)
+            for (w, nf, nb), m in zip(grid, model):
+                st = zoo.random_state(name, sysm, rng)
+                if w:
+                    sysm.grad_neg_log_dens(st)
+                before = snapshot(c)
+                for d, k in ((1, nf), (-1, nb)):
+                    s = st.copy()
+                    s.dir = d
+                    for _ in range(k):
+                        s = integ.step(s)
+                g = diff(before, snapshot(c)).get("grad", 0)
+                ctx.case(("grow", name, conv, w, nf, nb))
+                ctx.count("corr:grow_both")
+                if g < m:
+                    ctx.count("corr:grow_both:implementation_cheaper_than_model")  # fewer evaluations never break the property
+                if g > m:
+                    bad += 1
+                    ctx.fail("corr:grow_both", f"{nf} forward + {nb} backward leapfrog steps from one {'warm' if w else 'cold'} state on {name}: "
+                             f"{g} gradient evaluations, model grow_both says {m}", {"system": name, "conv": conv, "warm": w, "nf": nf, "nb": nb, "grad_evals": g, "model": m}, kind="corr")
+    ctx.oblige(f"correspondence: Model/GradCount.grow_both evaluated by Coq on {len(grid)} (cold/warm, nf, nb) cases bounds from above (and on this tree equals) the gradient evaluations of the real "
+               "LeapfrogIntegrator growing both directions from one state object (3 systems x 2 return conventions)", bad == 0, f"{bad} mismatches")
+
+
 def run(ctx):
     ctx.rule = ("model correspondence: random op histories comparing evaluation counts; search: every cached method x scenario x return convention, "
                 "integrator trajectories and transitions counting user-callback invocations")
@@ -143,5 +182,7 @@ def run(ctx):
         ctx.props()
     if model_ok:
         cache_corr.run(ctx, 40 if not ctx.thorough else 300, 30 if not ctx.thorough else 50, tag="eval-counts")
+    if model_ok and ctx.build(["Model/GradCount.vo"], label="gradient-count model"):
+        bidirectional_corr(ctx)
     method_search(ctx)
     trajectory_search(ctx)
